@@ -523,6 +523,11 @@ class IMAPUserServer:
         #
         self.active_mailboxes_lock = asyncio.Lock()
 
+        # The names (old and new) of mailboxes that are in the middle of being
+        # renamed. See `get_mailbox()`.
+        #
+        self.renaming: set[str] = set()
+
         # We also have a dict of asyncio.Event's for mailboxes that are "being
         # activated". If multiple tasks want a mailbox and it has not been
         # activated we use these asyncio.Events so that only one task actually
@@ -947,7 +952,7 @@ class IMAPUserServer:
 
     ##################################################################
     #
-    async def get_mailbox(self, name: str) -> Mailbox:
+    async def get_mailbox(self, name: str, renaming: bool = False) -> Mailbox:
         """
         A factory of sorts.. if we have an active mailbox with the given name
         return it.
@@ -974,6 +979,20 @@ class IMAPUserServer:
         #
         if name.lower() == "inbox":
             name = "inbox"
+
+        # While a mailbox (and its inferiors) is being renamed its folder, its
+        # db row and its entry in `active_mailboxes` change one after the
+        # other. Looked up by the old or the new name in the middle of that
+        # we would instantiate a second, new, mailbox for a folder that is
+        # about to go away. Only the rename itself (`renaming=True`) may look
+        # these names up.
+        #
+        if not renaming and any(
+            name == x or name.startswith(f"{x}/") for x in self.renaming
+        ):
+            raise NoSuchMailbox(
+                f"No such mailbox: '{name}' (it is being renamed)"
+            )
 
         # if not self.folder_exists(name):
         if not name.strip() or not self.folder_exists(name):
